@@ -12,6 +12,7 @@
 #include <kernel/lafem/dense_vector.hpp>
 #include <kernel/lafem/dense_vector_blocked.hpp>
 #include <kernel/lafem/sparse_vector.hpp>
+#include <kernel/lafem/sparse_vector_blocked.hpp>
 #include <kernel/lafem/sparse_matrix_csr.hpp>
 #include <kernel/lafem/sparse_matrix_bcsr.hpp>
 #include <kernel/lafem/sparse_layout.hpp>
@@ -1028,6 +1029,236 @@ struct Harness
   }
 };
 
+// ================================================================================================ grown containers
+// Sparse vectors that re-allocated at least once (more insertions than min(size,1000)), followed by chains of copy-like
+// operations; after every step the size bookkeeping (_elements_size/_indices_size vs allocated_elements() vs the byte size
+// MemoryPool holds), the reference counts (one per live holder), the contents (reference: std::map, last insertion wins)
+// and, through ASan, every byte of every array are checked; then the last copy is appended to (in place, then past its
+// capacity) and everything is destroyed in both orders.
+namespace grown
+{
+  typedef std::map<Index, double> Ref;
+  enum { G_DEEP = 0, G_WEAK, G_LAYOUT, G_ALLOCATE, G_SHALLOW, G_CONVERT, G_CONVERT_OTHER, G_DEEP_OTHER, G_WEAK_OTHER, G_MOVE_CTOR, G_MOVE_ASSIGN,
+    G_SERIALIZE, G_CLONE_BYVALUE, G_SHALLOW_OTHER, G_NOPS };
+  static const char* gop_name[G_NOPS] = {"clone(Deep)", "clone(Weak)", "clone(Layout)", "clone(Allocate)", "clone(Shallow)", "convert(same type)",
+    "convert(other DT/IT)", "cross-type clone(Deep)", "cross-type clone(Weak)", "move-ctor", "move-assign", "serialize+deserialize", "clone() by value", "cross-type clone(Shallow)"};
+  static bool gop_defined(int op) { return op != G_LAYOUT && op != G_ALLOCATE; }
+  static bool gop_moves(int op) { return op == G_MOVE_CTOR || op == G_MOVE_ASSIGN; }
+
+  struct IG
+  {
+    virtual ~IG() {}
+    virtual const char* tname() const = 0;
+    virtual std::unique_ptr<IG> derive(int op) = 0;
+    virtual void insert(Index idx, double v) = 0;
+    virtual void sort_now() = 0;
+    virtual bool has_arrays() const = 0;
+    virtual Index used_raw() const = 0;
+    virtual Index allocated() const = 0;
+    virtual Index vsize() const = 0;
+    virtual void pointers(std::vector<const void*>& out) const = 0;
+    /// returns "" or the class of the first inconsistency; ref == nullptr: contents undefined
+    virtual std::string check(const Ref* ref) = 0;
+  };
+
+  template<typename T_> struct Traits;
+  template<typename DT_, typename IT_> struct Traits<SparseVector<DT_, IT_>>
+  {
+    static constexpr Index bs = 1;
+    static DT_ make(double v) { return DT_(v); }
+    static bool same(const DT_* p, double v) { return double(p[0]) == v; }
+    static bool is_zero(const DT_& x) { return double(x) == 0.0; }
+    static bool equals(const DT_& x, double v) { return double(x) == v; }
+  };
+  template<typename DT_, typename IT_> struct Traits<SparseVectorBlocked<DT_, IT_, 2>>
+  {
+    static constexpr Index bs = 2;
+    static Tiny::Vector<DT_, 2> make(double v) { Tiny::Vector<DT_, 2> t; t[0] = DT_(v); t[1] = DT_(-v); return t; }
+    static bool same(const DT_* p, double v) { return double(p[0]) == v && double(p[1]) == -v; }
+    static bool is_zero(const Tiny::Vector<DT_, 2>& x) { return double(x[0]) == 0.0 && double(x[1]) == 0.0; }
+    static bool equals(const Tiny::Vector<DT_, 2>& x, double v) { return double(x[0]) == v && double(x[1]) == -v; }
+  };
+
+  template<typename T_, typename O_> struct GV : IG
+  {
+    typedef typename T_::DataType DT; typedef typename T_::IndexType IT; typedef Traits<T_> TR;
+    T_ x;
+    const char* nm;
+    explicit GV(const char* n) : x(), nm(n) {}
+    const char* tname() const override { return nm; }
+    static const char* other_name(const char* n)
+    {
+      return !strcmp(n, "SV<d,u64>") ? "SV<f,u32>" : !strcmp(n, "SV<f,u32>") ? "SV<d,u64>" : !strcmp(n, "SVB2<d,u64>") ? "SVB2<f,u32>" : "SVB2<d,u64>";
+    }
+    std::unique_ptr<IG> derive(int op) override
+    {
+      auto same = [&] { return std::make_unique<GV<T_, O_>>(nm); };
+      auto other = [&] { return std::make_unique<GV<O_, T_>>(other_name(nm)); };
+      switch(op)
+      {
+      case G_DEEP: { auto y = same(); y->x.clone(x, CloneMode::Deep); return y; }
+      case G_WEAK: { auto y = same(); y->x.clone(x, CloneMode::Weak); return y; }
+      case G_LAYOUT: { auto y = same(); y->x.clone(x, CloneMode::Layout); return y; }
+      case G_ALLOCATE: { auto y = same(); y->x.clone(x, CloneMode::Allocate); return y; }
+      case G_SHALLOW: { auto y = same(); y->x.clone(x, CloneMode::Shallow); return y; }
+      case G_CONVERT: { auto y = same(); y->x.convert(x); return y; }
+      case G_CONVERT_OTHER: { auto y = other(); y->x.convert(x); return y; }
+      case G_DEEP_OTHER: { auto y = other(); y->x.clone(x, CloneMode::Deep); return y; }
+      case G_WEAK_OTHER: { auto y = other(); y->x.clone(x, CloneMode::Weak); return y; }
+      case G_SHALLOW_OTHER: { auto y = other(); y->x.clone(x, CloneMode::Shallow); return y; }
+      case G_MOVE_CTOR: { auto y = same(); T_ tmp(std::move(x)); y->x = std::move(tmp); return y; }
+      case G_MOVE_ASSIGN: { auto y = same(); y->x = T_(Index(10)); y->x(3, TR::make(1.0)); y->x(1, TR::make(2.0)); y->x = std::move(x); return y; }
+      case G_SERIALIZE: { auto y = same(); std::vector<char> buf = x.serialize(); y->x = T_(buf); return y; }
+      case G_CLONE_BYVALUE: { auto y = same(); y->x = x.clone(); return y; }
+      }
+      return nullptr;
+    }
+    void insert(Index idx, double v) override { x(idx, TR::make(v)); }
+    void sort_now() override { x.sort(); }
+    bool has_arrays() const override { return !x._elements.empty() || !x._indices.empty(); }
+    Index used_raw() const override { return x._scalar_index.size() > 1 ? x._scalar_index[1] : 0; }
+    Index allocated() const override { return x._scalar_index.size() > 2 ? x._scalar_index[2] : 0; }
+    Index vsize() const override { return x._scalar_index.empty() ? 0 : x._scalar_index[0]; }
+    void pointers(std::vector<const void*>& out) const override { for(auto p : x._elements) if(p) out.push_back(p); for(auto p : x._indices) if(p) out.push_back(p); }
+    std::string check(const Ref* ref) override
+    {
+      if(!has_arrays()) return (ref && !ref->empty()) ? "container lost its arrays" : "";
+      if(x._elements.size() != 1 || x._indices.size() != 1 || x._elements_size.size() != 1 || x._indices_size.size() != 1 || x._scalar_index.size() != 5) return "array lists / _scalar_index malformed";
+      const Index es = x._elements_size[0], is = x._indices_size[0], used = x._scalar_index[1], alloc = x._scalar_index[2];
+      if(is != alloc || es != alloc * TR::bs) return "_elements_size/_indices_size differ from allocated_elements()";
+      if(used > alloc) return "used_elements exceeds allocated_elements";
+      auto pe = MemoryPool::_pool.find(x._elements[0]); auto pi = MemoryPool::_pool.find(x._indices[0]);
+      if(pe == MemoryPool::_pool.end() || pi == MemoryPool::_pool.end()) return "array not registered in MemoryPool";
+      auto r4 = [](Index n) { return n % 4 == 0 ? n : n + 4 - n % 4; };
+      if(pe->second.size != r4(es) * sizeof(DT) || pi->second.size != r4(is) * sizeof(IT)) return "MemoryPool allocation size differs from _elements_size/_indices_size";
+      // every entry the container claims room for is touched (ASan)
+      volatile double sink = 0; for(Index i = 0; i < es; ++i) sink = sink + double(x._elements[0][i]); for(Index i = 0; i < is; ++i) sink = sink + double(x._indices[0][i]);
+      if(!ref) return "";
+      const Index n = x.used_elements();   // sorts and de-duplicates
+      if(n != Index(ref->size())) return "used_elements() differs from the number of distinct inserted indices";
+      const IT* ix = x.indices(); const DT* el = x._elements[0];
+      Index k = 0;
+      for(auto& kv : *ref)
+      {
+        if(Index(ix[k]) != kv.first) return "indices differ from the inserted ones";
+        if(!TR::same(el + k * TR::bs, kv.second)) return "values differ from the inserted ones";
+        ++k;
+      }
+      if(!ref->empty())
+      {
+        const T_& cx = x;
+        auto last = ref->rbegin();
+        if(!TR::equals(cx(last->first), last->second)) return "operator()(last index) differs from the inserted value";
+        Index absent = 0; while(ref->count(absent)) ++absent;
+        if(absent < vsize() && !TR::is_zero(cx(absent))) return "operator()(absent index) is not zero";
+      }
+      return "";
+    }
+  };
+
+  struct Live { std::unique_ptr<IG> obj; Ref ref; bool defined; };
+
+  /// fam 0: SparseVector, 1: SparseVectorBlocked<2>; pattern 0 ascending (1500), 1 descending (1100), 2 duplicates (2100 insertions, 1600 distinct)
+  static std::unique_ptr<IG> make_source(int fam, int pattern, Ref& ref)
+  {
+    std::unique_ptr<IG> a;
+    if(fam == 0) { auto y = std::make_unique<GV<SparseVector<double, u64>, SparseVector<float, u32>>>("SV<d,u64>"); y->x = SparseVector<double, u64>(Index(4000)); a = std::move(y); }
+    else { auto y = std::make_unique<GV<SparseVectorBlocked<double, u64, 2>, SparseVectorBlocked<float, u32, 2>>>("SVB2<d,u64>"); y->x = SparseVectorBlocked<double, u64, 2>(Index(4000)); a = std::move(y); }
+    const Index cnt = pattern == 0 ? 1500 : pattern == 1 ? 1100 : 2100;
+    for(Index i = 0; i < cnt; ++i)
+    {
+      const Index idx = pattern == 0 ? 2 * i + 1 : pattern == 1 ? 2999 - 2 * i : (7 * i) % 1600;
+      const double v = double(i % 97) + 1.0;
+      a->insert(idx, v); ref[idx] = v;
+    }
+    return a;
+  }
+  static const char* pattern_name(int p) { return p == 0 ? "1500 ascending insertions" : p == 1 ? "1100 descending insertions" : "2100 insertions with duplicates"; }
+
+  struct Runner
+  {
+    verif::Ctx& c; std::string desc; std::set<std::string> reported;
+    Runner(verif::Ctx& cc, const std::string& d) : c(cc), desc(d) {}
+    void fail(const std::string& key, const std::string& msg) { if(reported.insert(key).second) c.fail(key, msg + " | " + desc); }
+
+    bool verify(std::vector<Live>& live, const std::string& stage)
+    {
+      bool ok = true;
+      std::map<const void*, Index> holders;
+      for(auto& l : live)
+      {
+        if(!l.obj) continue;
+        const std::string e = l.obj->check(l.defined ? &l.ref : nullptr);
+        c.count("grown_object_checks");
+        if(!e.empty()) { fail(std::string("grown ") + l.obj->tname() + " " + stage + ": " + e, "used=" + std::to_string(l.obj->used_raw()) + " allocated=" + std::to_string(l.obj->allocated())); ok = false; }
+        std::vector<const void*> ps; l.obj->pointers(ps);
+        for(auto q : ps) holders[q]++;
+      }
+      for(auto& kv : holders)
+      {
+        auto it = MemoryPool::_pool.find(const_cast<void*>(kv.first));
+        if(it == MemoryPool::_pool.end()) continue;
+        if(it->second.counter != kv.second) { fail("grown vectors " + stage + ": MemoryPool reference count differs from the number of holders", ""); ok = false; }
+      }
+      if(ok && MemoryPool::_pool.size() != holders.size()) { fail("grown vectors " + stage + ": MemoryPool holds chunks no container refers to", ""); ok = false; }
+      return ok;
+    }
+
+    void run(int fam, int pattern, bool presort, const std::vector<int>& ops)
+    {
+      if(!MemoryPool::_pool.empty()) { fail("MemoryPool not empty at the start of a grown-vector chain", ""); return; }
+      {
+        std::vector<Live> live;
+        { Live l; l.defined = true; l.obj = make_source(fam, pattern, l.ref); live.push_back(std::move(l)); }
+        if(presort) live[0].obj->sort_now();
+        bool ok = verify(live, "after growth");
+        std::string chain;
+        for(size_t s = 0; s < ops.size() && ok; ++s)
+        {
+          Live& cur = live.back();
+          if(!cur.obj->has_arrays()) break;
+          Live d; d.ref = cur.ref; d.defined = cur.defined && gop_defined(ops[s]);
+          d.obj = cur.obj->derive(ops[s]);
+          c.count("transitions"); c.count("grown_chain_steps");
+          if(gop_moves(ops[s])) { cur.ref.clear(); cur.defined = true; }
+          const std::string stage = std::string("after ") + gop_name[ops[s]];
+          live.push_back(std::move(d));
+          ok = verify(live, stage);
+          chain = stage;
+        }
+        if(ok)
+        {
+          // append in place to the last copy (index larger than every existing one), then past its capacity
+          Live& last = live.back();
+          if(last.obj->has_arrays())
+          {
+            Index mx = 0; for(auto& l : live) for(auto& kv : l.ref) mx = std::max(mx, kv.first);
+            Index next = std::max<Index>(mx + 1, 3000);
+            last.obj->insert(next, 5.0); last.ref[next] = 5.0; ++next;
+            c.count("transitions");
+            ok = verify(live, chain + " then one insertion into the copy");
+            if(ok)
+            {
+              const Index room = last.obj->allocated() - last.obj->used_raw();
+              for(Index j = 0; j <= room && next < last.obj->vsize(); ++j, ++next) { last.obj->insert(next, double(j % 50) + 2.0); last.ref[next] = double(j % 50) + 2.0; }
+              c.count("transitions"); c.count("grown_regrowths");
+              ok = verify(live, chain + " then insertions past the capacity of the copy");
+            }
+          }
+        }
+        // destruction order alternates
+        if(presort) while(!live.empty()) live.pop_back();
+        else while(!live.empty()) live.erase(live.begin());
+      }
+      if(!MemoryPool::_pool.empty())
+      {
+        fail("grown vectors: MemoryPool not empty after all containers were destroyed", "");
+        while(!MemoryPool::_pool.empty()) { auto it = MemoryPool::_pool.begin(); ::free(it->first); MemoryPool::_pool.erase(it); }
+      }
+    }
+  };
+} // namespace grown
+
 struct Case { int ty[3]; std::vector<Op> prefix; std::string name; };
 
 int main(int argc, char** argv)
@@ -1038,8 +1269,11 @@ int main(int argc, char** argv)
     "create / clone(5 modes, also across DT/IT) / convert(same type, other DT, other IT, DV<->DVB) / move-assign (incl. self) / move-construct / "
     "range-ctor / raw-pointer co-owner ctor / ctor+operator= from layout() / SparseLayout move-assign / clear / destroy / format(value) / format() , deduplicated on the implementation state "
     "(per slot: _foreign_memory, _scalar_index, _scalar_dt, per array chunk class + offset + MemoryPool reference count + size + defined contents; unreferenced chunks; plus a tag when the preceding operation was a no-op for the implementation state, so that no-ops are explored one level further instead of being pruned). "
-    "Non-trivial = every case (all start with a container that owns arrays); hashed by (types, start).";
-  spec.bounds_quick = "all histories up to depth 4 beyond the start configuration; 3 slots";
+    "Further cases: grown sparse vectors (SparseVector / SparseVectorBlocked<2> of size 4000 that re-allocated once or twice: 1500 ascending, 1100 descending, "
+    "2100 insertions with duplicates) followed by every chain of copy-like operations of the tier's length (5 clone modes, by-value clone, convert same/other DT+IT, cross-type clones, "
+    "move-ctor/-assign, serialize+deserialize), then insertion into the last copy in place and past its capacity, destruction in both orders. "
+    "Non-trivial = every case (all start with a container that owns arrays); hashed by (types, start) resp. the case description.";
+  spec.bounds_quick = "all histories up to depth 4 beyond the start configuration; 3 slots; grown vectors: chains of length 1 (length 2 for SparseVector ascending)";
   spec.bounds_thorough = "all histories up to depth 6 beyond the start configuration (counter cases_with_closed_state_space = cases whose reachable state space closed before the bound, i.e. complete for any depth); 3 slots";
   spec.assumptions = {
     "reference model written in the harness: map array-id -> (#owning containers, element count, contents), op semantics transcribed from the documented clone modes / convert / move / range / layout contracts",
@@ -1093,5 +1327,29 @@ int main(int argc, char** argv)
       c.nontrivial(verif::Hash().str(cs.name).get());
       c.count("bfs_cases");
     }
+    // grown sparse vectors: case = (family, insertion pattern, source sorted before use?, first operation); inside the case
+    // all operation chains of the tier's length that start with that operation
+    for(int fam = 0; fam < 2; ++fam) for(int pattern = 0; pattern < 3; ++pattern) for(int presort = 0; presort < 2; ++presort)
+      for(int op0 = 0; op0 < grown::G_NOPS; ++op0)
+      {
+        if(!c.want()) continue;
+        const std::string d = std::string("grown ") + (fam ? "SparseVectorBlocked<2>" : "SparseVector") + "(4000), " + grown::pattern_name(pattern) + (presort ? ", sorted first" : ", unsorted") + ", first op " + grown::gop_name[op0];
+        c.desc([&] { return d; });
+        grown::Runner R(c, d);
+        const int len = c.thorough ? ((fam == 0 && pattern == 0) ? 3 : 2) : ((fam == 0 && pattern == 0) ? 2 : 1);
+        std::vector<int> ops(size_t(len), 0); ops[0] = op0;
+        // odometer over the remaining positions
+        while(true)
+        {
+          c.heartbeat();
+          R.run(fam, pattern, presort != 0, ops);
+          c.count("grown_chains");
+          int pos = len - 1;
+          while(pos >= 1 && ++ops[size_t(pos)] == grown::G_NOPS) { ops[size_t(pos)] = 0; --pos; }
+          if(pos < 1) break;
+        }
+        c.nontrivial(verif::Hash().str(d).get());
+        c.count("grown_cases");
+      }
   });
 }
